@@ -20,12 +20,13 @@ use serde_json::{json, Value};
 
 pub struct C10;
 
-const KEY_LENS: [u16; 6] = [0, 1, 8, 250, 251, 65535];
-const EXTRAS_LENS: [u8; 7] = [0, 4, 8, 12, 20, 21, 255];
+const KEY_LENS: [u16; 8] = [0, 1, 2, 3, 8, 250, 251, 65535];
+// every length around the fixed extras blocks the parsers read (4, 8, 20 bytes)
+const EXTRAS_LENS: [u8; 15] = [0, 1, 2, 3, 4, 5, 7, 8, 9, 12, 16, 19, 20, 21, 255];
 
 fn body_lens(kl: u16, el: u8, limit: u32) -> Vec<u32> {
     let ke = kl as u32 + el as u32;
-    let mut v = vec![0, ke.saturating_sub(1), ke, ke + 1, ke + 8, limit.saturating_sub(1), limit, limit + 1, 2 * limit, 0x00ff_ffff, 0x7fff_ffff, 0xffff_ffff];
+    let mut v = vec![0, 3, 4, 7, 8, 19, 20, ke.saturating_sub(1), ke, ke + 1, ke + 8, limit.saturating_sub(1), limit, limit + 1, 2 * limit, 0x00ff_ffff, 0x7fff_ffff, 0xffff_ffff];
     v.sort();
     v.dedup();
     v
@@ -211,11 +212,25 @@ fn gen_byzantine(run_seed: u64, _tier: Tier) -> (Knobs, Vec<u8>, Vec<usize>, Vec
                 match rng.below(6) {
                     0 => r.body_len_override = Some(*rng.pick(&[0xffff_ffffu32, 0x7fff_ffff, knobs.item_limit + 1, 0])),
                     1 => r.key_len_override = Some(*rng.pick(&[65535u16, 251, 0])),
-                    2 => r.extras_len_override = Some(*rng.pick(&[255u8, 21, 3])),
+                    2 => r.extras_len_override = Some(if rng.chance(1, 2) { rng.below(25) as u8 } else { *rng.pick(&[255u8, 21, 3]) }),
                     3 => r.cas = u64::MAX,
                     4 => r.opcode = rng.next() as u8,
                     _ => r.data_type = 1,
                 }
+                r.opaque = 0xb000 + i as u32;
+                stream.extend(r.encode());
+            }
+            4 => {
+                // a short, self-consistent frame of any opcode: few extras, a short key and
+                // a body of exactly (or just above) their sum - shorter than the fixed
+                // extras block the opcode's parser reads
+                let el = rng.below(25) as u8;
+                let kl = rng.below(4) as u16;
+                let extra = rng.below(3) as u32;
+                let mut r = Request::new(if rng.chance(1, 2) { rng.below(0x25) as u8 } else { *rng.pick(&[op::FLUSH, op::FLUSHQ, op::SET, op::ADD, op::INCR, op::DECR, op::TOUCH, op::GAT]) });
+                r.extras = (0..el).map(|i| [0u8, 0, 0, 1, 0xff, 0xff, 0xff, 0xff][i as usize % 8]).collect();
+                r.key = vec![b'k'; kl as usize];
+                r.value = vec![b'7'; extra as usize];
                 r.opaque = 0xb000 + i as u32;
                 stream.extend(r.encode());
             }
@@ -469,7 +484,7 @@ impl Check for C10 {
         }
     }
     fn rule(&self) -> String {
-        "ring H grid (the first 256 runs, x4 item limits in thorough): for one opcode 0..255 per run the full boundary grid key_len {0,1,8,250,251,65535} x extras_len {0,4,8,12,20,21,255} x body_len {0, key+extras-1, key+extras, +1, +8, limit-1, limit, limit+1, 2x, 2^24-1, 2^31-1, 2^32-1} x (magic, data type) {ok, dt=1, 0x81, 0x00} x cas {0, 2^64-1} x bytes present {header only, half the body, whole body, body + a following noop}, fed one-shot / header-first / in small chunks to the real decoder; every decoded request is executed and encoded. Ring N byzantine runs: streams of 1-10 pieces (noise, valid frames with one field replaced by an extreme, counters with extreme operands, bit-flipped valid frames) with random segmentation against the whole server, then silence past the idle timeout and a well-behaved client. Oracle: no panic (overflow checks on), every delivery reaches quiescence within the poll budget, frames the listed rules call invalid are never executed (no success answer, store unchanged), the decode buffer capacity <= limit + 24 + 4096 + bytes fed (ring H), no single allocation > 2*(limit+4 KiB)+64 KiB+stream (counting allocator, ring N), the byzantine connection is released and the server still serves. non-trivial: every grid run; byzantine streams of >= 24 bytes; distinct = distinct digests of response bytes / event logs".into()
+        "ring H grid (the first 256 runs, x4 item limits in thorough): for one opcode 0..255 per run the full boundary grid key_len {0,1,2,3,8,250,251,65535} x extras_len {0,1,2,3,4,5,7,8,9,12,16,19,20,21,255} x body_len {0,3,4,7,8,19,20, key+extras-1, key+extras, +1, +8, limit-1, limit, limit+1, 2x, 2^24-1, 2^31-1, 2^32-1} x (magic, data type) {ok, dt=1, 0x81, 0x00} x cas {0, 2^64-1} x bytes present {header only, half the body, whole body, body + a following noop}, fed one-shot / header-first / in small chunks to the real decoder; every decoded request is executed and encoded. Ring N byzantine runs: streams of 1-10 pieces (noise, valid frames with one field replaced by an extreme, short self-consistent frames of any opcode with 0-24 extras bytes, counters with extreme operands, bit-flipped valid frames) with random segmentation against the whole server, then silence past the idle timeout and a well-behaved client. Oracle: no panic (overflow checks on), every delivery reaches quiescence within the poll budget, frames the listed rules call invalid are never executed (no success answer, store unchanged), the decode buffer capacity <= limit + 24 + 4096 + bytes fed (ring H), no single allocation > 2*(limit+4 KiB)+64 KiB+stream (counting allocator, ring N), the byzantine connection is released and the server still serves. non-trivial: every grid run; byzantine streams of >= 24 bytes; distinct = distinct digests of response bytes / event logs".into()
     }
     fn assumptions(&self) -> Vec<String> {
         vec![
